@@ -406,6 +406,11 @@ func (e *Env) evalBin(n *EBin) SVal {
 	case "<", "<=", ">", ">=":
 		return SVal{T: app(SBool, n.Op, a.T, b.T)}
 	case "+", "-", "*":
+		if n.Op == "+" && a.T.Sort == SStr && b.T.Sort == SStr {
+			// string concatenation (uninterpreted, as in the executable code)
+			e.c.declareFun("gstr.cat", []Sort{SStr, SStr}, SStr)
+			return SVal{T: app(SStr, "gstr.cat", a.T, b.T), Type: types.Typ[types.String]}
+		}
 		if real {
 			return SVal{T: app(SReal, n.Op, a.T, b.T)}
 		}
@@ -750,7 +755,11 @@ func (e *Env) evalCall(n *ECall) SVal {
 		if e.old == nil {
 			return e.errf("fresh() needs an old state")
 		}
-		return SVal{T: tAnd(tGt(arg(0).T, e.heap(e.old, c.allocName())), tLe(arg(0).T, e.heap(e.cur, c.allocName())))}
+		fa := arg(0).T
+		if fa.Sort == SSlice {
+			fa = mk(SInt, "(s.arr "+fa.S+")") // a slice is fresh when its backing array is
+		}
+		return SVal{T: tAnd(tGt(fa, e.heap(e.old, c.allocName())), tLe(fa, e.heap(e.cur, c.allocName())))}
 	case "typeis":
 		// typeis(x, T): dynamic type of interface x is T
 		need(2)
